@@ -69,6 +69,12 @@ func HasRootDomain(url string, root string) bool {
 		return false
 	}
 
+	// Only a URL that is fetched from a host has a root domain. What looks like
+	// the host of e.g. "javascript://www.youtube.com/%0Aalert(1)" is a comment.
+	if parsedURL.Scheme != "http" && parsedURL.Scheme != "https" {
+		return false
+	}
+
 	return parsedURL.Host == root || strings.HasSuffix(parsedURL.Host, "."+root)
 }
 
